@@ -110,13 +110,25 @@ Proof.
   destruct (w_u16 (len s)) eqn:W; [|discriminate]. apply w_u16_inv in W. destruct W as [_ ->].
   intros H; inversion H. split; reflexivity.
 Qed.
-Lemma string_ok_parts s : string_ok s = true -> len s < 65536 /\ utf8_ok s = true.
-Proof. unfold string_ok. intros H. apply andb_true_iff in H. destruct H as [H _]. apply andb_true_iff in H. destruct H. split; [lia | assumption]. Qed.
+Lemma str_contains_nul_no_null s : str_contains_nul s = negb (no_null s).
+Proof.
+  unfold str_contains_nul, no_null. induction s as [|x t IH]; [reflexivity|].
+  cbn [existsb forallb]. rewrite IH. destruct (x =? 0); reflexivity.
+Qed.
+Definition str_clean (s : bytes) : bool := utf8_ok s && negb (str_contains_nul s).
+Lemma string_ok_parts s : string_ok s = true -> len s < 65536 /\ str_clean s = true.
+Proof.
+  unfold string_ok, str_clean. rewrite str_contains_nul_no_null, negb_involutive. intros H.
+  apply andb_true_iff in H. destruct H as [H Hn]. apply andb_true_iff in H. destruct H as [H Hu].
+  rewrite Hu, Hn. split; [lia | reflexivity].
+Qed.
 
-Lemma lp_tail_app c s rest : (c = true -> utf8_ok s = true) -> lp_tail c (len s) (s ++ rest) = Ok (s, rest).
+Lemma lp_tail_app c s rest : (c = true -> str_clean s = true) -> lp_tail c (len s) (s ++ rest) = Ok (s, rest).
 Proof.
   intros H. unfold lp_tail. rewrite len_app. replace (len s + len rest <? len s) with false by lia.
-  rewrite take_all_app, drop_all_app. destruct c; [rewrite H by reflexivity|]; reflexivity.
+  rewrite take_all_app, drop_all_app. destruct c; [|reflexivity].
+  specialize (H eq_refl). unfold str_clean in H. apply andb_true_iff in H. destruct H as [Hu Hn].
+  rewrite Hu. destruct (str_contains_nul s); [discriminate|]. reflexivity.
 Qed.
 
 Lemma dec_string_w s bs rest : w_string s = Some bs -> decode_length_prefixed_string (bs ++ rest) = Ok (s, rest).
